@@ -266,7 +266,9 @@ class Prop(BaseProp):
                         rc_, so_, se_ = runner.run_cli_pty(base, cwd=work, home=home, on_tty=("stdout", "stderr"), cols=40)
                     else:
                         env_ = {k_: v_ for k_, v_ in os.environ.items() if k_ != "PYTHONUNBUFFERED"}
-                        rc_, so_, se_ = runner.run_cli(base, cwd=work, home=home, env_extra={"COLUMNS": "30", "LINES": "7", "PYTHONUNBUFFERED": ""})
+                        # (... and Python's development mode switched on: warnings of the interpreter belong on standard error)
+                        rc_, so_, se_ = runner.run_cli(base, cwd=work, home=home, env_extra={"COLUMNS": "30", "LINES": "7", "PYTHONUNBUFFERED": "",
+                                                                                              "PYTHONDEVMODE": "1", "PYTHONWARNINGS": "default"})
                     res.count("stdout_runs_on_a_" + how)
                     if rc_ != 0:
                         res.violate(f"stdout-run-failed:{how}", se_[-300:], wit)
